@@ -1,7 +1,7 @@
 import Summer.Proofs.Aggregate
 /-
 Helper lemmas for property C03, part 3: the shape of the model produced by `stratifyWith` for an
-unadjusted stratification — the compartments are `stratifyComps`, the flows are the copies of the
+unadjusted stratification — the compartments are `stratifyComps`, the flows are the copiesA of the
 parent flows followed (age stratifications) by ageing flows, each of which joins two children of one
 parent compartment.
 -/
@@ -191,7 +191,7 @@ variable {α : Type} [One α] [Div α] [NatCast α]
 theorem foldlM_stratifyFlow (s : Strat α) (h : s.flowAdj = []) (flows init : List (Flow α)) :
     flows.foldlM (fun (acc : List (Flow α)) f => do
       let fs ← stratifyFlow f s
-      pure (acc ++ fs)) init = (.ok (init ++ flows.flatMap (copies s)) : Res _) := by
+      pure (acc ++ fs)) init = (.ok (init ++ flows.flatMap (copiesA s)) : Res _) := by
   induction flows generalizing init with
   | nil => simp [pure, Except.pure]
   | cons f fs ih =>
@@ -207,7 +207,7 @@ def AgeInv (comps : List Comp) (s : Strat α) (base : List (Flow α)) (acc : Mod
 theorem stratifyWith_shape (m m' : Model α) (s : Strat α) (h : stratifyWith m s = .ok m')
     (hfa : s.flowAdj = []) (hmix : s.mixing = none) (hk : s.kind ≠ .strain)
     (hfresh : freshFor m.comps s = true) :
-    m'.comps = stratifyComps m.comps s ∧ ∃ extra, m'.flows = m.flows.flatMap (copies s) ++ extra ∧
+    m'.comps = stratifyComps m.comps s ∧ ∃ extra, m'.flows = m.flows.flatMap (copiesA s) ++ extra ∧
       (∀ g ∈ extra, IsSiblingFlow m.comps s g) ∧ (s.kind ≠ .age → extra = []) := by
   have hk' : (s.kind == StratKind.strain) = false := by simpa using hk
   unfold stratifyWith at h
@@ -228,10 +228,10 @@ theorem stratifyWith_shape (m m' : Model α) (s : Strat α) (h : stratifyWith m 
   · simp only [hage, if_true] at hm4
     replace hm4 := (bind_guardE_ok _ _ _ _ hm4).2
     replace hm4 := (bind_guardE_ok _ _ _ _ hm4).2
-    have hinv : AgeInv m.comps s (m.flows.flatMap (copies s)) m4 := by
-      refine foldlM_inv (AgeInv m.comps s (m.flows.flatMap (copies s))) _ _ ?_ _ _ ?_ hm4
+    have hinv : AgeInv m.comps s (m.flows.flatMap (copiesA s)) m4 := by
+      refine foldlM_inv (AgeInv m.comps s (m.flows.flatMap (copiesA s))) _ _ ?_ _ _ ?_ hm4
       · intro acc ab _ hacc acc' hstep
-        refine foldlM_inv (AgeInv m.comps s (m.flows.flatMap (copies s))) _ _ ?_ _ _ hacc hstep
+        refine foldlM_inv (AgeInv m.comps s (m.flows.flatMap (copiesA s))) _ _ ?_ _ _ hacc hstep
         intro acc2 c hc hacc2 acc2' hstep2
         replace hstep2 := (bind_guardE_ok _ _ _ _ hstep2).2
         obtain ⟨hcomps, c1, c2, hm1, hm2, hfl⟩ := addTransitionCore_one _ _ _ _ _ _ _ _ _ hstep2
